@@ -54,8 +54,36 @@ def assert_environment():
     np.seterr(all="ignore")
 
 
-def scratch_root() -> str:
+def _base_scratch() -> str:
     for d in ("/dev/shm", "/tmp"):
         if os.path.isdir(d) and os.access(d, os.W_OK):
             return d
     return "/tmp"
+
+
+def scratch_root() -> str:
+    """scratch directory of this process: workers get a private one (VERIF_SCRATCH) that is removed when they exit and,
+    if they are killed, by the launcher."""
+    d = os.environ.get("VERIF_SCRATCH")
+    if d and os.path.isdir(d):
+        return d
+    return _base_scratch()
+
+
+def make_worker_scratch(engine: str) -> str:
+    import atexit
+    import shutil
+    import tempfile
+
+    d = tempfile.mkdtemp(prefix=f"verif-{engine}-{os.getpid()}-", dir=_base_scratch())
+    os.environ["VERIF_SCRATCH"] = d
+    atexit.register(shutil.rmtree, d, True)
+    return d
+
+
+def remove_worker_scratch(engine: str, pid: int) -> None:
+    import glob
+    import shutil
+
+    for d in glob.glob(os.path.join(_base_scratch(), f"verif-{engine}-{pid}-*")):
+        shutil.rmtree(d, ignore_errors=True)
